@@ -620,12 +620,32 @@ static C09_TABLE_WEIGHTS: &[(u16, u32)] = &[
     (t::RESERVE, 2),
 ];
 
+static C09_SET_WEIGHTS: &[(u16, u32)] = &[
+    (st::INSERT, 14),
+    (st::INSERT_RANGE, 5),
+    (st::REMOVE, 6),
+    (st::ITER, 30),
+    (st::DRAIN, 8),
+    (st::ALGEBRA, 6),
+    (st::SWAP, 3),
+    (st::FILL_TO_CAPACITY, 3),
+    (st::REMOVE_RUN, 5),
+    (st::RESERVE, 2),
+    (st::SHRINK_TO_FIT, 2),
+    (st::CLEAR, 1),
+];
+
 fn c09_strategy(tier: Tier) -> BoxedStrategy<Case> {
     let n = if tier == Tier::Quick { 80 } else { 250 };
     union2(
-        map_case_strategy(MapGen { prop: 9, weights: C09_MAP_WEIGHTS, max_ops: n, generic_pct: 25, plain_pct: 40 }),
-        2,
-        table_case_strategy(TableGen { prop: 9, weights: C09_TABLE_WEIGHTS, max_ops: n, generic_pct: 25, plain_pct: 40 }),
+        union2(
+            map_case_strategy(MapGen { prop: 9, weights: C09_MAP_WEIGHTS, max_ops: n, generic_pct: 25, plain_pct: 40 }),
+            2,
+            table_case_strategy(TableGen { prop: 9, weights: C09_TABLE_WEIGHTS, max_ops: n, generic_pct: 25, plain_pct: 40 }),
+            1,
+        ),
+        4,
+        set_case_strategy(SetGen { prop: 9, weights: C09_SET_WEIGHTS, max_ops: n, generic_pct: 25, plain_pct: 40 }),
         1,
     )
 }
@@ -637,7 +657,7 @@ fn c09_nontrivial(_c: &Case, o: &Outcome) -> bool {
 pub static C09: PropDef = PropDef {
     id: "C09",
     rule: "state histories x iterator kind (map: iter, iter_mut, keys, values, values_mut, into_iter, into_keys, \
-           into_values, drain; table: iter, iter_mut, into_iter, drain) x switch-over prefix p x continuation (next \
+           into_values, drain; table: iter, iter_mut, into_iter, drain; set: iter, into_iter, drain, algebra iterators) x switch-over prefix p x continuation (next \
            to exhaustion / fold / for_each / clone-and-run-both / count / drop); size_hint and len checked at every \
            step; non-trivial = 0 < p < len with continuation fold or clone, or an owning iterator cut strictly inside",
     level: "exploration",
@@ -647,7 +667,7 @@ pub static C09: PropDef = PropDef {
     eval: eval_plain,
     nontrivial: c09_nontrivial,
     specs: hbv::specs::MAP_OPS,
-    assumptions: &["set iterators are covered by the C07 check (they forward to the map iterators)"],
+    assumptions: &["iteration order is unspecified: yields are compared as multisets"],
     prop_labels: &[],
 };
 
@@ -679,12 +699,31 @@ static C10_TABLE_WEIGHTS: &[(u16, u32)] = &[
     (t::REMOVE_NTH, 2),
 ];
 
+static C10_SET_WEIGHTS: &[(u16, u32)] = &[
+    (st::INSERT, 14),
+    (st::INSERT_RANGE, 5),
+    (st::REMOVE, 4),
+    (st::RETAIN, 14),
+    (st::EXTRACT_IF, 16),
+    (st::DRAIN, 10),
+    (st::FILL_TO_CAPACITY, 3),
+    (st::REMOVE_RUN, 3),
+    (st::EXTEND, 3),
+    (st::GET, 2),
+    (st::SWAP, 2),
+];
+
 fn c10_strategy(tier: Tier) -> BoxedStrategy<Case> {
     let n = if tier == Tier::Quick { 80 } else { 250 };
     union2(
-        map_case_strategy(MapGen { prop: 10, weights: C10_MAP_WEIGHTS, max_ops: n, generic_pct: 20, plain_pct: 30 }),
-        2,
-        table_case_strategy(TableGen { prop: 10, weights: C10_TABLE_WEIGHTS, max_ops: n, generic_pct: 20, plain_pct: 30 }),
+        union2(
+            map_case_strategy(MapGen { prop: 10, weights: C10_MAP_WEIGHTS, max_ops: n, generic_pct: 20, plain_pct: 30 }),
+            2,
+            table_case_strategy(TableGen { prop: 10, weights: C10_TABLE_WEIGHTS, max_ops: n, generic_pct: 20, plain_pct: 30 }),
+            1,
+        ),
+        4,
+        set_case_strategy(SetGen { prop: 10, weights: C10_SET_WEIGHTS, max_ops: n, generic_pct: 20, plain_pct: 30 }),
         1,
     )
 }
@@ -696,7 +735,7 @@ fn c10_nontrivial(_c: &Case, o: &Outcome) -> bool {
 pub static C10: PropDef = PropDef {
     id: "C10",
     rule: "state histories x predicate subsets (salted per-mille threshold on the key id) x mutation by the predicate \
-           x early-drop point, for HashMap (2/3) and HashTable (1/3); non-trivial = extract_if with a subset neither \
+           x early-drop point, for HashMap (8/15), HashTable (4/15) and HashSet (1/5); non-trivial = extract_if with a subset neither \
            empty nor full dropped strictly inside its selection, or drain dropped strictly inside",
     level: "exploration",
     cases_quick: 60_000,
@@ -705,7 +744,7 @@ pub static C10: PropDef = PropDef {
     eval: eval_plain,
     nontrivial: c10_nontrivial,
     specs: hbv::specs::MAP_OPS,
-    assumptions: &["HashSet::retain/extract_if/drain forward to the map and are exercised by the C07 check"],
+    assumptions: &["the predicate is a salted threshold on the element id, so its answers do not depend on visiting order"],
     prop_labels: &[],
 };
 
